@@ -5,7 +5,15 @@
 From Coq Require Import List String ZArith Bool.
 Import ListNotations.
 Require Import Verif.Common.LockEv Verif.Generated.SourceFacts.
+Require Verif.Model.C12.
 Open Scope string_scope.
 
 Lemma default_status_ok : default_status_cond = "resp.StatusCode != http.StatusOK && resp.StatusCode != http.StatusCreated".
 Proof. reflexivity. Qed.
+
+(* the tie to the C12 model: a status is used iff it is one the regenerated condition lets through *)
+Lemma status_accepted_ok : default_status_accepted = [200; 201]%Z.
+Proof. reflexivity. Qed.
+Lemma status_matches_model : forall code : Z,
+  Verif.Model.C12.ok_status code = existsb (Z.eqb code) default_status_accepted.
+Proof. intros code. unfold Verif.Model.C12.ok_status. rewrite status_accepted_ok. simpl. rewrite orb_false_r. reflexivity. Qed.
